@@ -899,3 +899,49 @@ func rcEqFold(a, b []byte) bool {
 	}
 	return true
 }
+
+// CSS Fonts: a <family-name> that is spelled like a CSS-wide keyword or `default` must be quoted to be a family name,
+// and a quoted generic-family keyword ("serif") names a real font, not the generic family.
+var verifFontKeywords = []string{"inherit", "initial", "unset", "default", "revert", "revert-layer", "Inherit", "INITIAL"}
+var verifFontGenerics = []string{"serif", "sans-serif", "monospace", "cursive", "fantasy", "system-ui", "Serif", "Sans-Serif"}
+var verifFontPlain = []string{"Arial", "Times New Roman", "x", "inherited", "my font"}
+
+// VerifCSSFontFamilyQuoted (C04): a quoted family name in font-family / font: keywords and generic names keep their
+// quotes; other names keep their (case-insensitive) spelling.
+func VerifCSSFontFamilyQuoted(n int) {
+	kind := vChoice("kind", 3)
+	var name string
+	switch kind {
+	case 0:
+		name = verifFontKeywords[vChoice("kw", len(verifFontKeywords))]
+	case 1:
+		name = verifFontGenerics[vChoice("gen", len(verifFontGenerics))]
+	default:
+		name = verifFontPlain[vChoice("plain", len(verifFontPlain))]
+	}
+	q := []byte{'"', '\''}[vChoice("quote", 2)]
+	t := [][3]string{{"font-family", "", ""}, {"font-family", "", ",serif"}, {"font-family", "arial,", ""}, {"font", "1em ", ""}, {"font", "bold 5px ", ",serif"}}[vChoice("tmpl", 5)]
+	val := append(append(append(append([]byte(t[1]), q), name...), q), t[2]...)
+	out := verifDecl(t[0], val, &Minifier{})
+	// find the family in the output: after the last space-or-comma separated prefix
+	quoted := false
+	for i := 0; i+len(name)+2 <= len(out); i++ {
+		if (out[i] == '"' || out[i] == '\'') && rcEqFold(out[i+1:i+1+len(name)], []byte(name)) && out[i+1+len(name)] == out[i] {
+			quoted = true
+		}
+	}
+	bare := false
+	for i := 0; i+len(name) <= len(out); i++ {
+		if rcEqFold(out[i:i+len(name)], []byte(name)) && (i == 0 || out[i-1] == ' ' || out[i-1] == ',' || out[i-1] == ':') && (i+len(name) == len(out) || out[i+len(name)] == ',') {
+			bare = true
+		}
+	}
+	vAssert(quoted || bare, "family name kept: "+string(out))
+	if kind == 1 && !quoted {
+		vKnown("C04-F92")
+	}
+	if kind != 2 {
+		vAssert(quoted, "a quoted family name spelled like a keyword stays quoted: "+string(val)+" => "+string(out))
+	}
+	vReach("end")
+}
